@@ -8,7 +8,7 @@ Starts == {k \in 1..Len(Trace) : Trace[k].ev = "reset"}
 VARIABLES l, c
 TInit == /\ l \in Starts
          /\ c = IF InConfigs(CfOf(Trace[l])) THEN CReset(Trace[l])
-                ELSE Bad("harness: configuration not in the specification's configuration space")
+                ELSE Bad("harness: configuration outside the spec")
 TNext == FALSE /\ UNCHANGED <<l, c>>
 TSpec == TInit /\ [][TNext]_<<l, c>>
 Report == IF IsBad(c) THEN RejectLine(l, c.why) ELSE TRUE
